@@ -358,6 +358,11 @@ class InterpolatableFunction(ABC):
                 resShape = x.shape
             res = np.empty(resShape)
 
+            ## Points of a finite-difference stencil can fall inside the range
+            xInside = ~(xLower | xUpper)
+            if np.any(xInside):
+                res[xInside] = self.evaluateInterpolation(x[xInside])
+
             ## Lower range
             if np.any(xLower):
                 match self.extrapolationTypeLower:
